@@ -17,11 +17,22 @@ import (
 )
 
 type recWriter struct {
-	recs   []string
-	prefix bool
+	recs    []string
+	prefix  bool
+	slow    bool // the writer takes a while: a scheduling point between being called and having written
+	inside  int
+	overlap bool
 }
 
 func (w *recWriter) Write(v []byte) {
+	if w.slow {
+		w.inside++
+		if w.inside > 1 {
+			w.overlap = true
+		}
+		vm.Yield()
+		w.inside--
+	}
 	w.recs = append(w.recs, string(v))
 	vm.Log("write %q", shorten(string(v)))
 }
@@ -41,6 +52,8 @@ type cfg struct {
 	Raw        bool // WriteLog (exact bytes) instead of Infof
 	TwoWriters bool // second logger object with its own writer
 	QueueCap   int  // capacity of the log queue (0: the package's 10000)
+	Slow       bool // slow writer (see recWriter)
+	Big        bool // the first entry of every logging goroutine is 5000 bytes long (formatted path only)
 	Panics     int  // >0: instead of calling FlushLogger, this many goroutines log one entry each and panic under tars.CheckPanic
 	Gap        int  // ms between the panics
 }
@@ -49,7 +62,7 @@ func (c cfg) name() string {
 	if c.Panics > 0 {
 		return fmt.Sprintf("CheckPanic panics=%d gap=%dms G=%d E=%d pre=%d raw=%v cap=%d", c.Panics, c.Gap, c.G, c.E, c.Pre, c.Raw, c.QueueCap)
 	}
-	return fmt.Sprintf("rogger G=%d E=%d pre=%d late=%d raw=%v two=%v cap=%d", c.G, c.E, c.Pre, c.Late, c.Raw, c.TwoWriters, c.QueueCap)
+	return fmt.Sprintf("rogger G=%d E=%d pre=%d late=%d raw=%v two=%v cap=%d slow=%v big=%v", c.G, c.E, c.Pre, c.Late, c.Raw, c.TwoWriters, c.QueueCap, c.Slow, c.Big)
 }
 
 func scenario(c cfg) *vm.Scenario {
@@ -67,7 +80,7 @@ func scenario(c cfg) *vm.Scenario {
 	var logged []stamped
 	sc := &vm.Scenario{Name: c.name()}
 	sc.Reset = func() {
-		w1, w2 = &recWriter{prefix: !c.Raw}, &recWriter{prefix: !c.Raw}
+		w1, w2 = &recWriter{prefix: !c.Raw, slow: c.Slow}, &recWriter{prefix: !c.Raw, slow: c.Slow}
 		required = nil
 		snapshot = nil
 		seq, firstPanic, logged = 0, 0, nil
@@ -100,6 +113,9 @@ func scenario(c cfg) *vm.Scenario {
 			vm.GoNamed("logger", func() {
 				for e := 0; e < c.E; e++ {
 					m := fmt.Sprintf("<g%d-e%d>", g, e)
+					if c.Big && e == 0 {
+						m = fmt.Sprintf("<g%d-e%d>%s<end-g%d>", g, e, strings.Repeat("B", 5000), g)
+					}
 					l := lg
 					if g%2 == 1 {
 						l = lg2
@@ -282,6 +298,17 @@ func main() {
 		add(cfg{G: 1, E: 3, Raw: raw, QueueCap: 1}, -1, b)
 		add(cfg{G: 2, E: 2, Raw: raw, QueueCap: 1}, -1, b)
 		add(cfg{G: 1, E: 3, Pre: 1, Raw: raw, QueueCap: 2}, -1, b)
+		// a writer that takes a while (a scheduling point inside Write): whoever else takes entries from
+		// the queue meanwhile would overtake the entry being written
+		add(cfg{G: 1, E: 3, Raw: raw, Slow: true}, -1, b)
+		add(cfg{G: 2, E: 2, Raw: raw, Slow: true}, -1, b)
+		add(cfg{G: 1, E: 3, Pre: 1, Raw: raw, Slow: true, QueueCap: 2}, -1, b)
+		if !raw {
+			// entries beyond 4 KiB through the formatting path
+			add(cfg{G: 1, E: 2, Big: true}, -1, b)
+			add(cfg{G: 2, E: 2, Big: true}, -1, b)
+			add(cfg{G: 1, E: 3, Big: true, Slow: true}, -1, b)
+		}
 		// panic-triggered exit: CheckPanic dumps, flushes, exits; one panic, and two overlapping ones
 		add(cfg{Panics: 1, Pre: 2, Raw: raw}, -1, b)
 		add(cfg{Panics: 1, G: 1, E: 2, Raw: raw}, -1, b)
